@@ -5,6 +5,7 @@
   (contracts/example) and a minimal application follow this shape.
 -/
 import Cgp.GatewayOps
+import Cgp.GasService
 namespace Cgp.Executable
 open Cgp Cgp.Xdr Cgp.Gateway
 
@@ -27,6 +28,14 @@ def appExecute (gw : State) (app : Addr) (eff : Effects) (chain id src payload :
   | .error e => .error (.gateway e)
   | .ok (_, false, _) => .error .notApproved
   | .ok (gw', true, evs) => .ok (gw', eff ++ [(chain, id, src, payload)], evs)
+
+/-- `Example::send(caller, chain, address, message, gas_token)`: the caller's authorisation, then the gas payment BY THE CALLER
+    for the example app as sender (the caller's authorisation tree covers it), then the outbound call as the app.
+    Returns the gas service's new state and its `gas_paid` event; the gateway announcement is the app's `call_contract`. -/
+def exampleSend (gs : GasService.State) (auths : List Addr) (app caller : Addr) (chain dest message : Bytes)
+    (token : Addr) (amount : Int) : Except GasService.Err (GasService.State × List GasService.Event) :=
+  if caller ∉ auths then .error .unauthorized
+  else GasService.payGas H gs [caller] app chain dest message caller token amount []
 
 end
 end Cgp.Executable
